@@ -56,11 +56,19 @@ class Server:
         nonce = self.cnonce + self.snonce
         if self.tamper == "nonce-prefix":
             nonce = "X" + nonce[1:]
+        # "the server's nonce does not extend its own": the client nonce must be a PREFIX, not merely occur in it
+        if self.tamper == "nonce-prepended":
+            nonce = "x" + nonce
+        if self.tamper == "nonce-old-prepended":
+            nonce = "oldNONCEoldNONCE" + nonce
+        if self.tamper == "nonce-only-suffix":
+            nonce = self.snonce + self.cnonce
         salt = self.salt
         if self.tamper == "salt":
             salt = bytes([salt[0] ^ 1]) + salt[1:]
         it = self.iterations + (1 if self.tamper == "iterations" else 0)
-        self.nonce = self.cnonce + self.snonce
+        # a server that plays this game goes along with the nonce it sent: only the client can stop the login
+        self.nonce = nonce if (self.tamper or "").startswith("nonce-") else self.cnonce + self.snonce
         self.server_first = "r=%s,s=%s,i=%d" % (nonce, base64.b64encode(salt).decode(), it)
         return self.server_first.encode("utf-8")
 
